@@ -88,32 +88,33 @@ Qed.
 (* ------------------------------------------------------------------------ *)
 (* 2. line relaxation never runs along a two-cell direction                  *)
 
-Lemma lr_never_two_cells lr0 n0 n1 n2 : 0 <= lr0 <= 7 ->
-  let k := lines_along (current_lr_dir lr0 n0 n1 n2) in
-  (n0 = 2 -> fst (fst k) = false) /\
-  (n1 = 2 -> snd (fst k) = false) /\
-  (n2 = 2 -> snd k = false).
+(* current_lr_dir looks at the shape only through the tests n = 2 *)
+Definition rep2 (n : Z) : Z := if n =? 2 then 2 else 3.
+
+Lemma current_lr_dir_rep lr0 n0 n1 n2 :
+  current_lr_dir lr0 n0 n1 n2 = current_lr_dir lr0 (rep2 n0) (rep2 n1) (rep2 n2).
 Proof.
-  intros H.
-  assert (C : lr0 = 0 \/ lr0 = 1 \/ lr0 = 2 \/ lr0 = 3 \/ lr0 = 4 \/ lr0 = 5
-              \/ lr0 = 6 \/ lr0 = 7) by lia.
-  destruct (Z.eqb_spec n0 2) as [E0|E0];
-  destruct (Z.eqb_spec n1 2) as [E1|E1];
-  destruct (Z.eqb_spec n2 2) as [E2|E2];
-  repeat (destruct C as [->|C] || (subst lr0));
-  cbv zeta; unfold lines_along, current_lr_dir, smoothing_kernels;
-  repeat match goal with
-  | H : ?n = 2 |- _ => rewrite H; clear H
-  end;
-  repeat match goal with
-  | H : ?n <> 2 |- context [?n =? 2] =>
-      replace (n =? 2) with false by (symmetry; apply Z.eqb_neq; exact H)
-  end;
-  cbn; repeat split; intros; try reflexivity; try congruence.
+  unfold current_lr_dir, rep2. cbv zeta.
+  destruct (n0 =? 2), (n1 =? 2), (n2 =? 2); reflexivity.
 Qed.
 
-(* the smoother still relaxes along every requested direction that has more
-   than two cells, and if nothing is left the point smoother runs *)
+Definition lr_cases : list (Z * Z * Z * Z) :=
+  flat_map (fun l => flat_map (fun a => flat_map (fun b => map (fun c => (l, a, b, c))
+    [2; 3]) [2; 3]) [2; 3]) [0; 1; 2; 3; 4; 5; 6; 7].
+
+Definition lr_ok (t : Z * Z * Z * Z) : bool :=
+  let '(l, a, b, c) := t in
+  let k := lines_along (current_lr_dir l a b c) in
+  let k0 := lines_along l in
+  (Bool.eqb (fst (fst k)) (fst (fst k0) && negb (a =? 2)) &&
+   Bool.eqb (snd (fst k)) (snd (fst k0) && negb (b =? 2)) &&
+   Bool.eqb (snd k) (snd k0 && negb (c =? 2)))%bool.
+
+Lemma lr_cases_ok : forallb lr_ok lr_cases = true.
+Proof. vm_compute. reflexivity. Qed.
+
+(* the smoother relaxes lines exactly along the requested directions that have
+   more than two cells (finite case analysis: 8 codes x 2^3 tests, lifted) *)
 Lemma lr_subset lr0 n0 n1 n2 : 0 <= lr0 <= 7 ->
   let k := lines_along (current_lr_dir lr0 n0 n1 n2) in
   let k0 := lines_along lr0 in
@@ -121,12 +122,30 @@ Lemma lr_subset lr0 n0 n1 n2 : 0 <= lr0 <= 7 ->
   (snd (fst k) = (snd (fst k0) && negb (n1 =? 2))%bool) /\
   (snd k = (snd k0 && negb (n2 =? 2))%bool).
 Proof.
-  intros H.
-  assert (C : lr0 = 0 \/ lr0 = 1 \/ lr0 = 2 \/ lr0 = 3 \/ lr0 = 4 \/ lr0 = 5
-              \/ lr0 = 6 \/ lr0 = 7) by lia.
-  cbv zeta. unfold lines_along, current_lr_dir, smoothing_kernels.
-  destruct (n0 =? 2), (n1 =? 2), (n2 =? 2);
-  repeat (destruct C as [->|C] || (subst lr0)); cbn; repeat split; reflexivity.
+  intros H. cbv zeta. rewrite current_lr_dir_rep.
+  assert (I : In (lr0, rep2 n0, rep2 n1, rep2 n2) lr_cases).
+  { unfold lr_cases. apply in_flat_map. exists lr0. split; [cbn; lia|].
+    apply in_flat_map. exists (rep2 n0). split; [unfold rep2; destruct (n0 =? 2); cbn; auto|].
+    apply in_flat_map. exists (rep2 n1). split; [unfold rep2; destruct (n1 =? 2); cbn; auto|].
+    apply in_map_iff. exists (rep2 n2). split; [reflexivity|].
+    unfold rep2; destruct (n2 =? 2); cbn; auto. }
+  pose proof (proj1 (forallb_forall lr_ok lr_cases) lr_cases_ok _ I) as K.
+  unfold lr_ok in K. rewrite !andb_true_iff in K. destruct K as [[K1 K2] K3].
+  apply Bool.eqb_prop in K1, K2, K3.
+  assert (R : forall n, (rep2 n =? 2) = (n =? 2)).
+  { intros n. unfold rep2. destruct (n =? 2) eqn:E; reflexivity. }
+  rewrite !R in *. auto.
+Qed.
+
+Lemma lr_never_two_cells lr0 n0 n1 n2 : 0 <= lr0 <= 7 ->
+  let k := lines_along (current_lr_dir lr0 n0 n1 n2) in
+  (n0 = 2 -> fst (fst k) = false) /\
+  (n1 = 2 -> snd (fst k) = false) /\
+  (n2 = 2 -> snd k = false).
+Proof.
+  intros H. cbv zeta. destruct (lr_subset lr0 n0 n1 n2 H) as [A [B C]].
+  cbv zeta in A, B, C. rewrite A, B, C.
+  repeat split; intros ->; cbn; apply andb_false_r.
 Qed.
 
 (* ------------------------------------------------------------------------ *)
@@ -366,4 +385,317 @@ Lemma shape_at_ge2 c l : wf_cfg c ->
 Proof.
   intros [H [Hx [Hy Hz]]]. unfold shape_at, sx, sy, sz; cbn [fst snd].
   repeat split; apply iter_step_ge2; assumption.
+Qed.
+
+(* ------------------------------------------------------------------------ *)
+(* 5. the recursion: termination, bottom level, V / W / F order              *)
+
+Lemma opt_concat_single {A} (x : list A) : opt_concat [Some x] = Some x.
+Proof. cbn. now rewrite app_nil_r. Qed.
+
+Lemma opt_concat_two {A} (x y : list A) : opt_concat [Some x; Some y] = Some (x ++ y).
+Proof. cbn. now rewrite app_nil_r. Qed.
+
+Lemma zrange_1 : zrange 1 = [0].  Proof. reflexivity. Qed.
+Lemma zrange_2 : zrange 2 = [0; 1].  Proof. reflexivity. Qed.
+
+(* what one visit of a non-bottom level does around the recursive call *)
+Definition wrap (c : cfg) (l : Z) (s : shape) (sub : list ev) : list ev :=
+  pre_ev c l s ++ [ERestrict l (c_sc_of c s)] ++ sub ++ [EProlong l] ++ post_ev c l s.
+Definition next_shape (c : cfg) (s : shape) : shape := halve s (c_sc_of c s).
+
+(* textbook cycles; k = number of levels below the current one *)
+Fixpoint Vtb (c : cfg) (k : nat) (l : Z) (s : shape) : list ev :=
+  match k with
+  | O => [ECoarse l s (c_lr_of c s)]
+  | S k' => wrap c l s (Vtb c k' (l + 1) (next_shape c s))
+  end.
+
+(* W: every coarse level (except the coarsest) is visited twice per visit of
+   the level above *)
+Fixpoint Wtb (c : cfg) (k : nat) (l : Z) (s : shape) : list ev :=
+  match k with
+  | O => [ECoarse l s (c_lr_of c s)]
+  | S k' => let v := wrap c l s (Wtb c k' (l + 1) (next_shape c s)) in v ++ v
+  end.
+
+(* F: an F-cycle on the next level followed by a V-cycle on it *)
+Fixpoint Ftb (c : cfg) (k : nat) (l : Z) (s : shape) : list ev :=
+  match k with
+  | O => [ECoarse l s (c_lr_of c s)]
+  | S k' => wrap c l s (Ftb c k' (l + 1) (next_shape c s))
+            ++ wrap c l s (Vtb c k' (l + 1) (next_shape c s))
+  end.
+
+Lemma mg_cycmax_bottom l p b cy cm : l = b -> mg_cycmax l p b cy cm = 1.
+Proof. intros ->. unfold mg_cycmax. cbv zeta. now rewrite Z.eqb_refl. Qed.
+
+Lemma mg_cycmax_above l p b cy cm : l <> b ->
+  mg_cycmax l p b cy cm = if ((p =? 0) || negb (cy =? 70))%bool then cm else p.
+Proof.
+  intros H. unfold mg_cycmax. cbv zeta.
+  replace (l =? b) with false by (symmetry; now apply Z.eqb_neq). reflexivity.
+Qed.
+
+Lemma mg_body_bottom rec c l s cm cy : l = bottom c ->
+  mg_body rec c l s cm cy = Some [ECoarse l s (c_lr_of c s)].
+Proof. intros ->. unfold mg_body. now rewrite Z.eqb_refl. Qed.
+
+Lemma mg_body_above rec c l s cm cy sub : l <> bottom c ->
+  rec (l + 1) (next_shape c s) (cm - cy) = Some sub ->
+  mg_body rec c l s cm cy = Some (wrap c l s sub).
+Proof.
+  intros H E. unfold mg_body.
+  replace (l =? bottom c) with false by (symmetry; now apply Z.eqb_neq).
+  unfold next_shape in E. now rewrite E.
+Qed.
+
+(* V-cycle: any call below the fine grid is one V visit *)
+Lemma mg_call_V c : cyc c = 86 ->
+  forall k fuel l s p, l = bottom c - Z.of_nat k -> (k < fuel)%nat ->
+  mg_call fuel c l s p = Some (Vtb c k l s).
+Proof.
+  intros HV. induction k as [|k IH]; intros fuel l s p Hl Hf;
+    (destruct fuel as [|f]; [lia|]); cbn [mg_call Vtb].
+  - rewrite mg_cycmax_bottom by lia. rewrite zrange_1. cbn [map].
+    rewrite mg_body_bottom by lia. apply opt_concat_single.
+  - rewrite mg_cycmax_above by lia. rewrite HV.
+    replace ((p =? 0) || negb (86 =? 70))%bool with true by (now rewrite orb_true_r).
+    change (cycmax_of_cycle 86) with 1. rewrite zrange_1. cbn [map].
+    rewrite (mg_body_above _ c l s 1 0 (Vtb c k (l + 1) (next_shape c s))); [|lia|].
+    + apply opt_concat_single.
+    + apply IH; lia.
+Qed.
+
+Lemma mg_call_W c : cyc c = 87 ->
+  forall k fuel l s p, l = bottom c - Z.of_nat k -> (k < fuel)%nat ->
+  mg_call fuel c l s p = Some (Wtb c k l s).
+Proof.
+  intros HW. induction k as [|k IH]; intros fuel l s p Hl Hf;
+    (destruct fuel as [|f]; [lia|]); cbn [mg_call Wtb].
+  - rewrite mg_cycmax_bottom by lia. rewrite zrange_1. cbn [map].
+    rewrite mg_body_bottom by lia. apply opt_concat_single.
+  - rewrite mg_cycmax_above by lia. rewrite HW.
+    replace ((p =? 0) || negb (87 =? 70))%bool with true by (now rewrite orb_true_r).
+    change (cycmax_of_cycle 87) with 2. rewrite zrange_2. cbn [map].
+    rewrite (mg_body_above _ c l s 2 0 (Wtb c k (l + 1) (next_shape c s))); [|lia|apply IH; lia].
+    rewrite (mg_body_above _ c l s 2 1 (Wtb c k (l + 1) (next_shape c s))); [|lia|apply IH; lia].
+    apply opt_concat_two.
+Qed.
+
+(* F-cycle: with hand-over value 2 an F visit followed by a V visit; with
+   hand-over value 1 a single V visit *)
+Lemma mg_call_F c : cyc c = 70 ->
+  forall k fuel l s, l = bottom c - Z.of_nat k -> (k < fuel)%nat ->
+  mg_call fuel c l s 2 = Some (Ftb c k l s) /\
+  mg_call fuel c l s 1 = Some (Vtb c k l s).
+Proof.
+  intros HF. induction k as [|k IH]; intros fuel l s Hl Hf;
+    (destruct fuel as [|f]; [lia|]); cbn [mg_call Ftb Vtb].
+  - rewrite !mg_cycmax_bottom by lia. rewrite zrange_1. cbn [map].
+    rewrite !mg_body_bottom by lia. split; apply opt_concat_single.
+  - rewrite !mg_cycmax_above by lia. rewrite HF.
+    change ((2 =? 0) || negb (70 =? 70))%bool with false.
+    change ((1 =? 0) || negb (70 =? 70))%bool with false. cbv iota.
+    destruct (IH f (l + 1) (next_shape c s) ltac:(lia) ltac:(lia)) as [I2 I1].
+    split.
+    + rewrite zrange_2. cbn [map].
+      rewrite (mg_body_above _ c l s 2 0 (Ftb c k (l + 1) (next_shape c s))); [|lia|exact I2].
+      rewrite (mg_body_above _ c l s 2 1 (Vtb c k (l + 1) (next_shape c s))); [|lia|exact I1].
+      apply opt_concat_two.
+    + rewrite zrange_1. cbn [map].
+      rewrite (mg_body_above _ c l s 1 0 (Vtb c k (l + 1) (next_shape c s))); [|lia|exact I1].
+      apply opt_concat_single.
+Qed.
+
+(* One fine-grid cycle, for every shape and configuration: it terminates with
+   the fuel the model allots (bottom + 1), and its event list is the textbook
+   V / W / F cycle over K = bottom levels. *)
+Definition fine_tb (c : cfg) : list ev :=
+  match Z.to_nat (bottom c) with
+  | O => [ECoarse 0 (shape0 c) (c_lr_of c (shape0 c))]
+  | S k =>
+      wrap c 0 (shape0 c)
+        ((if cyc c =? 86 then Vtb c k else if cyc c =? 87 then Wtb c k else Ftb c k)
+           1 (next_shape c (shape0 c)))
+  end.
+
+Theorem fine_cycle_order c : 0 <= bottom c -> (cyc c = 70 \/ cyc c = 86 \/ cyc c = 87) ->
+  fine_cycle (fuel_for c) c = Some (fine_tb c).
+Proof.
+  intros Hb Hc. unfold fine_cycle, fine_tb, fuel_for.
+  destruct (Z.to_nat (bottom c)) as [|k] eqn:E.
+  - rewrite mg_body_bottom by lia. reflexivity.
+  - assert (L : 1 = bottom c - Z.of_nat k) by lia.
+    rewrite mg_cycmax_above by lia. change ((0 =? 0) || _)%bool with true. cbv iota.
+    destruct Hc as [H|[H|H]]; rewrite H.
+    + change (cycmax_of_cycle 70) with 2. cbn [Z.eqb Pos.eqb].
+      destruct (mg_call_F c H k (S (S k)) 1 (next_shape c (shape0 c)) L ltac:(lia)) as [I2 _].
+      apply mg_body_above; [lia|exact I2].
+    + change (cycmax_of_cycle 86) with 1. cbn [Z.eqb Pos.eqb].
+      apply mg_body_above; [lia|]. apply mg_call_V; [assumption|lia|lia].
+    + change (cycmax_of_cycle 87) with 2. cbn [Z.eqb Pos.eqb].
+      apply mg_body_above; [lia|]. apply mg_call_W; [assumption|lia|lia].
+Qed.
+
+(* ------------------------------------------------------------------------ *)
+(* 6. every event of a fine-grid cycle is well-formed                        *)
+
+Definition ev_ok (c : cfg) (e : ev) : Prop :=
+  match e with
+  | EPre l s r | EPost l s r =>
+      0 <= l < bottom c /\ s = shape_at c (Z.to_nat l) /\ r = c_lr_of c s
+  | ECoarse l s r => l = bottom c /\ s = shape_at c (Z.to_nat l) /\ r = c_lr_of c s
+  | ERestrict l cs => 0 <= l < bottom c /\ cs = c_sc_of c (shape_at c (Z.to_nat l))
+  | EProlong l => 0 <= l < bottom c
+  end.
+
+Lemma wrap_ok c l s sub : 0 <= l < bottom c -> s = shape_at c (Z.to_nat l) ->
+  Forall (ev_ok c) sub -> Forall (ev_ok c) (wrap c l s sub).
+Proof.
+  intros Hl Hs Hsub. unfold wrap, pre_ev, post_ev.
+  apply Forall_app; split.
+  { destruct (pre_on c); repeat constructor; cbn; auto; lia. }
+  apply Forall_app; split.
+  { repeat constructor; cbn; subst s; auto; lia. }
+  apply Forall_app; split; [assumption|].
+  apply Forall_app; split.
+  { repeat constructor; cbn; auto; lia. }
+  destruct (post_on c); repeat constructor; cbn; auto; lia.
+Qed.
+
+Lemma next_shape_at c l : wf_cfg c -> 0 <= l < bottom c ->
+  next_shape c (shape_at c (Z.to_nat l)) = shape_at c (Z.to_nat (l + 1)).
+Proof.
+  intros W Hl. unfold next_shape. rewrite halve_shape_at by (assumption || lia).
+  f_equal. lia.
+Qed.
+
+Lemma Vtb_ok c : wf_cfg c -> forall k l, l = bottom c - Z.of_nat k -> 0 <= l ->
+  Forall (ev_ok c) (Vtb c k l (shape_at c (Z.to_nat l))).
+Proof.
+  intros W. induction k as [|k IH]; intros l Hl H0; cbn [Vtb].
+  - constructor; [cbn; repeat split; auto; lia | constructor].
+  - apply wrap_ok; [lia|reflexivity|].
+    rewrite next_shape_at by (assumption || lia). apply IH; lia.
+Qed.
+
+Lemma Wtb_ok c : wf_cfg c -> forall k l, l = bottom c - Z.of_nat k -> 0 <= l ->
+  Forall (ev_ok c) (Wtb c k l (shape_at c (Z.to_nat l))).
+Proof.
+  intros W. induction k as [|k IH]; intros l Hl H0; cbn [Wtb].
+  - constructor; [cbn; repeat split; auto; lia | constructor].
+  - assert (G : Forall (ev_ok c) (wrap c l (shape_at c (Z.to_nat l))
+               (Wtb c k (l + 1) (next_shape c (shape_at c (Z.to_nat l)))))).
+    { apply wrap_ok; [lia|reflexivity|].
+      rewrite next_shape_at by (assumption || lia). apply IH; lia. }
+    apply Forall_app; split; exact G.
+Qed.
+
+Lemma Ftb_ok c : wf_cfg c -> forall k l, l = bottom c - Z.of_nat k -> 0 <= l ->
+  Forall (ev_ok c) (Ftb c k l (shape_at c (Z.to_nat l))).
+Proof.
+  intros W. induction k as [|k IH]; intros l Hl H0; cbn [Ftb].
+  - constructor; [cbn; repeat split; auto; lia | constructor].
+  - apply Forall_app; split; (apply wrap_ok; [lia|reflexivity|]);
+      rewrite next_shape_at by (assumption || lia).
+    + apply IH; lia.
+    + apply Vtb_ok; (assumption || lia).
+Qed.
+
+Lemma shape_at_0 c : shape_at c 0 = shape0 c.
+Proof. unfold shape_at, sx, sy, sz. cbn [iter_step]. now destruct (shape0 c) as [[a b] d]. Qed.
+
+Theorem fine_tb_ok c : wf_cfg c -> Forall (ev_ok c) (fine_tb c).
+Proof.
+  intros W. pose proof (bottom_nonneg c W) as Hb. unfold fine_tb.
+  destruct (Z.to_nat (bottom c)) as [|k] eqn:E.
+  - constructor; [|constructor]. cbn. replace (bottom c) with 0 by lia.
+    change (Z.to_nat 0) with O. rewrite shape_at_0. auto.
+  - rewrite <- (shape_at_0 c). change O with (Z.to_nat 0).
+    apply wrap_ok; [lia|reflexivity|].
+    rewrite next_shape_at by (assumption || lia).
+    destruct (cyc c =? 86); [apply Vtb_ok; (assumption || lia)|].
+    destruct (cyc c =? 87); [apply Wtb_ok|apply Ftb_ok]; (assumption || lia).
+Qed.
+
+(* with full coarsening the bottom shape is the "Coarsest grid" of the header *)
+Lemma bottom_shape_is_header_shape c : wf_cfg c -> sc c = 0 ->
+  shape_at c (Z.to_nat (bottom c)) = repr_coarsest (user c) (shape0 c).
+Proof.
+  intros W Hs. pose proof (bottom_nonneg c W) as Hb.
+  destruct W as [H [Hx [Hy Hz]]].
+  pose proof (count1_nonneg (sx (shape0 c)) ltac:(lia)) as Nx.
+  pose proof (count1_nonneg (sy (shape0 c)) ltac:(lia)) as Ny.
+  pose proof (count1_nonneg (sz (shape0 c)) ltac:(lia)) as Nz.
+  destruct (bottom_spec c H) as [E|E];
+    [|pose proof (cap_level_le (user c) _ Nx); pose proof (cap_level_le (user c) _ Ny);
+      pose proof (cap_level_le (user c) _ Nz); lia].
+  cbv zeta in E. rewrite Hs in E. unfold in_pat in E.
+  simpl (_ =? _) in E. simpl (negb _) in E. cbv iota in E.
+  unfold shape_at, repr_coarsest, cap3. cbn [fst snd].
+  rewrite !iter_step_closed by assumption. rewrite Hs. unfold in_pat.
+  simpl (_ =? _). simpl (negb _). cbv iota.
+  rewrite Z2Nat.id by lia.
+  rewrite !cap_level_spec in * by assumption.
+  destruct (user c <? 0); f_equal; [f_equal| |f_equal|]; f_equal; f_equal; lia.
+Qed.
+
+(* ------------------------------------------------------------------------ *)
+(* 7. cycling of the semicoarsening / line-relaxation directions             *)
+
+(* itertools.cycle as a state machine: position in the pattern *)
+Definition cycle_next (pat : list Z) (pos : nat) : Z * nat :=
+  (nth pos pat 0, Nat.modulo (S pos) (length pat)).
+
+Fixpoint cycle_iter (pat : list Z) (k : nat) (pos : nat) : nat :=
+  match k with O => pos | S k' => snd (cycle_next pat (cycle_iter pat k' pos)) end.
+
+Lemma cycle_iter_pos pat k : pat <> [] -> cycle_iter pat k 0 = (k mod length pat)%nat.
+Proof.
+  intros Hp. assert (L : length pat <> O) by (destruct pat; cbn; congruence).
+  induction k as [|k IH]; cbn [cycle_iter cycle_next snd].
+  - now rewrite Nat.mod_0_l.
+  - rewrite IH. rewrite <- Nat.add_1_r at 1.
+    rewrite Nat.add_mod_idemp_l by assumption. now rewrite Nat.add_1_r.
+Qed.
+
+(* the direction used in fine-grid cycle k is pattern[k mod len]: the iterator
+   is advanced exactly once per cycle *)
+Lemma dirs_cyclic pat (k : nat) : pat <> [] ->
+  fst (cycle_next pat (cycle_iter pat k 0)) = dir_at pat (Z.of_nat k).
+Proof.
+  intros Hp. assert (L : length pat <> O) by (destruct pat; cbn; congruence).
+  cbn [cycle_next fst]. rewrite cycle_iter_pos by assumption. unfold dir_at.
+  f_equal. rewrite <- Nat2Z.inj_mod. now rewrite Nat2Z.id.
+Qed.
+
+(* restatements used by Props/C05.v *)
+Definition capped (c : cfg) (n : Z) : Z :=
+  if user c <? 0 then count1 n else Z.min (user c) (count1 n).
+
+Lemma bottom_spec_capped c : wf_cfg c ->
+  bottom c = Z.max (if in_pat (sc c) 0 then capped c (sx (shape0 c)) else 0)
+              (Z.max (if in_pat (sc c) 1 then capped c (sy (shape0 c)) else 0)
+                     (if in_pat (sc c) 2 then capped c (sz (shape0 c)) else 0)).
+Proof.
+  intros [H [Hx [Hy Hz]]]. unfold capped.
+  pose proof (count1_nonneg (sx (shape0 c)) ltac:(lia)) as Nx.
+  pose proof (count1_nonneg (sy (shape0 c)) ltac:(lia)) as Ny.
+  pose proof (count1_nonneg (sz (shape0 c)) ltac:(lia)) as Nz.
+  rewrite <- !cap_level_spec by assumption.
+  destruct (bottom_spec c H) as [E|E]; [exact E|].
+  pose proof (cap_level_le (user c) _ Nx). pose proof (cap_level_le (user c) _ Ny).
+  pose proof (cap_level_le (user c) _ Nz). lia.
+Qed.
+
+Definition level_cells (c : cfg) (l : nat) (d n : Z) : Z :=
+  if in_pat (sc c) d then n / 2 ^ Z.min (Z.of_nat l) (count1 n) else n.
+
+Lemma shape_at_closed c (l : nat) : wf_cfg c ->
+  shape_at c l = (level_cells c l 0 (sx (shape0 c)), level_cells c l 1 (sy (shape0 c)),
+                  level_cells c l 2 (sz (shape0 c))).
+Proof.
+  intros [H [Hx [Hy Hz]]]. unfold shape_at, level_cells.
+  now rewrite !iter_step_closed by assumption.
 Qed.
